@@ -505,7 +505,60 @@ class SimKernel(object):
 
 
 def compute_fdtable(kw):
-    """descriptor table the child would have after exec (POSIX/CPython rules)"""
+    """descriptor table the child would have after exec. When the caller
+    gave a preexec_fn (circus dup2()s the stdin socket, sets ids and limits
+    there) it is really run - in a forked child of this process that reports
+    its table through a pipe and leaves at once; CPython runs preexec_fn
+    before it closes descriptors, so does this."""
+    pre = kw.get('preexec_fn')
+    if pre is None or not hasattr(os, 'fork'):
+        return _fdtable_here(kw)
+    import json as _json
+    r, w = os.pipe()
+    pid = os.fork()
+    if pid == 0:
+        code = 0
+        try:
+            os.close(r)
+            try:
+                pre()
+                out = {'table': dict((str(k), list(v)) for k, v in
+                                     _fdtable_here(kw, skip=(w,)).items())}
+            except BaseException as e:      # noqa
+                out = {'error': repr(e)}
+            data = _json.dumps(out).encode('utf8')
+            while data:
+                n = os.write(w, data)
+                data = data[n:]
+        except BaseException:               # noqa
+            code = 1
+        finally:
+            os._exit(code)
+    os.close(w)
+    chunks = []
+    while True:
+        b = os.read(r, 65536)
+        if not b:
+            break
+        chunks.append(b)
+    os.close(r)
+    try:
+        os.waitpid(pid, 0)
+    except OSError:
+        pass
+    try:
+        out = _json.loads(b''.join(chunks).decode('utf8'))
+    except ValueError:
+        return _fdtable_here(kw)
+    if 'table' not in out:
+        t = _fdtable_here(kw)
+        t['preexec_error'] = out.get('error')
+        return t
+    return dict((int(k), tuple(v)) for k, v in out['table'].items())
+
+
+def _fdtable_here(kw, skip=()):
+    """POSIX/CPython rules applied to the descriptors of this process"""
     table = {}
     close_fds = kw.get('close_fds', True)
     pass_fds = set(kw.get('pass_fds', ()))
@@ -514,6 +567,8 @@ def compute_fdtable(kw):
     except OSError:
         fds = list(range(0, 256))
     for fd in sorted(fds):
+        if fd in skip:
+            continue
         try:
             st = os.fstat(fd)
         except OSError:
@@ -692,7 +747,11 @@ class SimPopen(_InfoMixin):
             p.stderr_w = PipeEnd(ends[1][1]).acquire()
             self.stderr = os.fdopen(ends[1][0], 'rb', 0)
         if k.want_fdtable:
-            p.fdtable = compute_fdtable(kw)
+            flt = getattr(k, 'preexec_filter', None)
+            if flt is not None and flt(p):
+                p.fdtable = compute_fdtable(kw)
+            else:
+                p.fdtable = _fdtable_here(kw)
         k.spawns.append(p)
         k._arm_lifetime(p)
         k._start_children(p)
